@@ -27,10 +27,11 @@ impl Monitor for C14 {
             ("reopens_under_a_different_policy", tier.pick(3_000, 80_000)),
             ("histories_with_rollover", tier.pick(200, 5_000)),
             ("writes_ending_within_6_bytes_of_a_block_end", tier.pick(200, 5_000)),
+            ("disk_usage_compared_across_policies", tier.pick(20_000, 500_000)),
         ]
     }
     fn rule(&self) -> String {
-        "case = one generated history (profiles mixed, gc, idle, delete, dense, huge, bigname and - 2 in 10 - align, which aims entries at block and file ends using the write cursor of the traced Always(Flush) instance) applied in lock-step to eight logs (OnDelay(250 us, FlushAndFsync), DoNothing, OnDelay(1h,Flush), OnDelay(1h,FlushAndFsync), OnDelay(0,FlushAndFsync), OnDelay(2ms,Flush) with 3 ms sleeps before every fifth call so that the delay elapses between calls, Always(Flush), Always(FlushAndFsync)); explicit persist calls of the history are issued on the even-numbered logs only; evaluation = one call whose outcomes (positions, eviction counts, error variants; byte counts excluded) and observable states must agree, or one restart / final reopen-under-another-policy comparison; distinct_nontrivial = distinct state digests reached after calls of histories that rolled over at least once".into()
+        "case = one generated history (profiles mixed, gc, idle, delete, dense, huge, bigname and - 2 in 10 - align, which aims entries at block and file ends using the write cursor of the traced Always(Flush) instance) applied in lock-step to eight logs (OnDelay(250 us, FlushAndFsync), DoNothing, OnDelay(1h,Flush), OnDelay(1h,FlushAndFsync), OnDelay(0,FlushAndFsync), OnDelay(2ms,Flush) with 3 ms sleeps before every fifth call so that the delay elapses between calls, Always(Flush), Always(FlushAndFsync)); explicit persist calls of the history are issued on the even-numbered logs only; evaluation = one call whose outcomes (positions, eviction counts, error variants; byte counts excluded) and observable states must agree, or one restart / final reopen-under-another-policy comparison; resource_usage().disk_used_bytes is compared as well for as long as every call returned the same byte count under every policy (all instances then hold WAL streams of the same length); distinct_nontrivial = distinct state digests reached after calls of histories that rolled over at least once".into()
     }
     fn assumptions(&self) -> Vec<String> {
         vec!["byte counts (wal_bytes_written) are not part of the comparison: the statement lists positions, eviction counts and errors".into()]
@@ -68,6 +69,12 @@ impl Monitor for C14 {
         let mut gen = Gen::new(&parts, cfg);
         let mut ops: Vec<Op> = Vec::new();
         let mut rolled = false;
+        // true while every instance is known to have appended the same NUMBER of bytes to its
+        // WAL after every call (the byte counts returned so far all agreed, and no restart ran
+        // its unreported GC pass with two or more empty queues, whose position records are
+        // written in HashMap order and can pad differently): the set of WAL files, hence
+        // disk_used_bytes, is then a function of the history alone
+        let mut same_stream_lengths = true;
         for k in 0..nops {
             let op = gen.next_op(Some(cursor));
             ops.push(op.clone());
@@ -142,6 +149,25 @@ impl Monitor for C14 {
                         format!("C14/state-differs/{}{}/{}-vs-{}", if matches!(op, Op::Restart) { "after-restart/" } else { "" }, op.kind(), ALL_POLICIES[0].name(), ALL_POLICIES[i].name()),
                         case,
                         json!({"history": hist(), "after_call": op.to_json(), "diff": diff}),
+                    );
+                    return;
+                }
+            }
+            if outs.iter().any(|o| *o != outs[0]) {
+                same_stream_lengths = false;
+            }
+            if matches!(op, Op::Restart) && snaps[0].queues.values().filter(|q| q.recs.is_empty()).count() >= 2 {
+                same_stream_lengths = false;
+            }
+            if same_stream_lengths {
+                let used: Vec<usize> = suts.iter().map(|s| s.log().resource_usage().disk_used_bytes).collect();
+                acc.count("disk_usage_compared_across_policies");
+                if let Some(i) = (1..used.len()).find(|i| used[*i] != used[0]) {
+                    acc.violation(
+                        format!("C14/disk-usage-differs/{}/{}-vs-{}", op.kind(), ALL_POLICIES[0].name(), ALL_POLICIES[i].name()),
+                        case,
+                        json!({"history": hist(), "after_call": op.to_json(), "disk_used_bytes": used.iter().zip(ALL_POLICIES.iter()).map(|(u, p)| format!("{}: {}", p.name(), u)).collect::<Vec<_>>(),
+                               "note": "every call so far returned the same wal_bytes_written under every policy, so every instance appended the same number of bytes"}),
                     );
                     return;
                 }
